@@ -1,5 +1,5 @@
 SPECIFICATION Spec
-CONSTANTS Dim = 2  MaxN = 3  MaxC = 1  InfMode = 2
+CONSTANTS Dim = 2  MaxN = 3  MaxC = 0  InfMode = 2
 INVARIANT NonEmptyIffComplete
 INVARIANT OnlyComplete
 INVARIANT PlainIsOptimum
